@@ -44,15 +44,15 @@ CLAIMED = {
         note="Trusted: Lean kernel + standard axioms, gen_pratt translator, hand-written LayRef/Machine/Lower models (tied by the streams), Float arithmetic opaque; whole-pipeline statement C01_full and statement lowering not proved",
         technique="Lean 4 structural-induction proofs (lowering, parser round-trip, operator agreement) + generated Pratt tables + reference-interpreter differential stream"),
     "C02": dict(
-        text="Lean theorems: capture chain soundness for any nesting depth, resolution is lexical for every program of the scoping fragment (simulation between the compiler's flat locals/capture chain and nested Spec environments), by-value access only if uncaptured, fresh box per execution, for-item declared once; generated symbol-state and capture tables; compiler access paths compared with the real PRE stream on every generated program, programs judged by a Lean cell-environment interpreter and the slot/box/capture machine",
+        text="Lean theorems: capture chain soundness for any nesting depth, resolution is lexical for every program of the scoping fragment (simulation between the compiler's flat locals/capture chain and nested Spec environments), by-value access only if uncaptured, fresh box per execution, for-item declared once, a `let` without initialiser reads nil in every position (plain, captured, re-executed in a loop); generated symbol-state and capture tables; compiler access paths compared with the real PRE stream on every generated program, programs judged by a Lean cell-environment interpreter and the slot/box/capture machine",
         note="Trusted: Lean kernel + standard axioms, gen_scope translator, hand-written resolver/compiler/machine models (tied by the two streams); environment/machine simulation (C02_env_simulation) is checked per program, not proved",
         technique="Lean 4 simulation proofs over scoping programs + generated tables + compile-log and program streams"),
     "C03": dict(
-        text="Lean theorems for class chains of any depth: field-index bijection, instance slot count, field set = names assigned on self in the chain's initialisers, fixed compile-time index valid in every descendant, flattened lookup = most-derived-first walk (methods and init), lexical super lookup, the implicit superclass is the built-in Object whatever the program names its own things (D26 repaired in /repo; open D26b: assigning to the module copy of Object), fused invoke = get-then-call, field shadows method, bound-method receiver, and that the emitted Class/Inherit/Field/Method sequence builds exactly that class; API-level stream against laythe_core Class/Instance, generated class programs judged by an executable Lean class semantics, compile-log tie for the field numbering",
+        text="Lean theorems for class chains of any depth: field-index bijection, instance slot count, field set = names assigned on self in the chain's initialisers, fixed compile-time index valid in every descendant, flattened lookup = most-derived-first walk (methods and init), lexical super lookup, the implicit superclass is the built-in Object whatever the program names its own things (D26 repaired in /repo; open D26b: assigning to the module copy of Object), fused invoke = get-then-call, field shadows method, bound-method receiver, and that the emitted Class/Inherit/Field/Method sequence builds exactly that class, a super-invoke site executed for any sequence of superclass objects (class factories) calls what the lexical walk finds (SuperInvoke cache model, accessors regenerated from the VM text); API-level stream against laythe_core Class/Instance, generated class programs (incl. class factories called with several parents) judged by an executable Lean class semantics, compile-log tie for the field numbering",
         note="Trusted: Lean kernel + standard axioms, hand-written class/VM-call model (tied by the three streams), harness; whole-program equivalence (C03_full) is sampled, not proved",
         technique="Lean 4 structural-induction proofs over class chains + API/program/compile-log correspondence streams"),
     "C04": dict(
-        text="Lean theorems: unwinding to a handler whose recorded depth equals the true depth resumes at the catch offset with exactly the slots that existed at the try and the same frame count, for any deeper frames and temporaries; catch chain (first matching clause, continue unwinding, non-Error filter); only Error instances can be raised; native boundary; a locally consistent handler-height/depth annotation is an invariant of every control-flow path and the executable checkers for handler balance and handler depth are sound; witnesses for the repaired defects D1/D3 and the open D185; regenerated exit-rule/try-emission tables; verified checkers run on every emitted function, interpreter probe compared with the annotation, generated try/catch programs judged by a definitional Lean interpreter",
+        text="Lean theorems: unwinding to a handler whose recorded depth equals the true depth resumes at the catch offset with exactly the slots that existed at the try and the same frame count, for any deeper frames and temporaries; catch chain (first matching clause, continue unwinding, non-Error filter); only Error instances can be raised; native boundary; a locally consistent handler-height/depth annotation is an invariant of every control-flow path and the executable checkers for handler balance and handler depth are sound, every clause's class test runs at exactly the handler's recorded depth + 1 (C04_clause_entry_depth), the lowering with captured (boxed) clause variables passes both checkers; witnesses for the repaired defects D1/D3 and the open D185; regenerated exit-rule/try-emission tables; verified checkers run on every emitted function, interpreter probe compared with the annotation, generated try/catch programs with first-class closures (captured locals and clause variables) judged by a definitional Lean interpreter",
         note="Trusted: Lean kernel (axioms propext, Quot.sound), translate_c04.py, hand-written handler machine and lowering skeleton (tied by the streams), probe and compile-log hooks; the repaired lowering being balanced for all statements is sampled, not proved; natives' own error propagation is not modelled (known finding D12 family)",
         technique="Lean 4 proofs about the handler machine and verified flow checkers + generated tables + Spec-interpreter program stream"),
     "C05": dict(
@@ -72,7 +72,7 @@ CLAIMED = {
         note="Trusted: Lean kernel + standard axioms, translate_c15.py, hand-written scanner/loop/contract models; the parser grammar (~2300 lines) and code generation are sampled by the malformed stream, not modelled; D21, D31, D151-D155 repaired in /repo (no open finding)",
         technique="Lean 4 totality/progress proofs for scanner and declaration loop + decide over generated narrowing table + malformed-input outcome stream"),
     "C16": dict(
-        text="Lean theorems: signature check soundness for all arities and argument lists; by decide +kernel over the table of all natives regenerated from laythe_lib, every body unwrap site is justified by the declared signature, receiver convention or a dominating test (no exception list), no instance field is unwrapped unchecked, the frame count never exceeds MAX_FRAME_SIZE along every call/native-enter/leave/return sequence (no bypass), the hook call family hands every signal of a resolved call back without a panic, no native uses a standard sort that panics on a non-total order, Display nests at most 64 levels on every (also cyclic) graph; fiber stack and channel capacity texts; non-callable dispatch table; real signature checker compared with the model, native x argument-kind matrix through real programs in isolated workers (debug and release), recursion shapes with exact frame counts, error-in-handler shapes, Display of cyclic/deep graphs compared exactly with the model, deep-format matrix (11 builders x 10 sinks at depth 10000, debug and release)",
+        text="Lean theorems: signature check soundness for all arities and argument lists; by decide +kernel over the table of all natives regenerated from laythe_lib, every body unwrap site is justified by the declared signature, receiver convention or a dominating test (no exception list), no instance field is unwrapped unchecked, the frame count never exceeds MAX_FRAME_SIZE along every call/native-enter/leave/return sequence (no bypass), the hook call family hands every signal of a resolved call back without a panic, no native uses a standard sort that panics on a non-total order, Display nests at most 64 levels on every (also cyclic) graph, for every program of the recursion skeleton (calls, stack-ful and stackless natives with callbacks, try at any level) temporary roots are balanced on every exit, assert_roots never fires, the frame limit holds and a caught overflow leaves frames and roots as at the try (call_native's root/frame event order regenerated from the VM text); fiber stack and channel capacity texts; non-callable dispatch table; real signature checker compared with the model, native x argument-kind matrix through real programs in isolated workers (debug and release), recursion shapes with exact frame counts, recursion through every callback-taking native x alignment x catch level with temp-root accounting against a control run, error-in-handler shapes, Display of cyclic/deep graphs compared exactly with the model, deep-format matrix (11 builders x 10 sinks at depth 10000, debug and release)",
         note="Trusted: Lean kernel + standard axioms, translate_natives.py (text scan of native bodies), harness workers; host panics and memory faults are runtime behaviour: the model predicts where they cannot happen, the streams search for the rest; 21 genuine crashes repaired in /repo; open: D11, D6, DC16.7, DC16.13 (recursive mark), DC16.14 (iterator chain recursion)",
         technique="Lean 4 decide-over-generated-table proofs + signature-check soundness + native matrix and recursion streams"),
     "C17": dict(
@@ -80,7 +80,7 @@ CLAIMED = {
         note="Trusted: Lean kernel + standard axioms, hand-written import model (tied by the multi-file stream), harness; termination of every run (C17_full) not proved; open finding DC17.2 (a completing child fiber wakes an importer whose module body is still parked)",
         technique="Lean 4 invariant proofs over the import machine + multi-file program stream"),
     "C19": dict(
-        text="Lean theorems on the REPL compile loop: symbols persist to the same slot across entries, a failing compile changes nothing, a whole session's property and invoke cache ids are consecutive, disjoint and inside vectors that only grow (C19_full holds: D13 repaired in /repo, the old restarted numbering kept as a regression fact); generated sessions run through Vm::repl vs the concatenated module, incl. functions with cache sites defined in one entry and called from later ones, plus a compile-log tie of module slots and cache ids read back from the encoded bytes",
+        text="Lean theorems on the REPL compile loop: symbols persist to the same slot across entries, a failing compile changes nothing, a whole session's property and invoke cache ids are consecutive, disjoint and inside vectors that only grow (C19_full holds: D13 repaired in /repo, the old restarted numbering kept as a regression fact), fibers left pending by earlier entries survive erroneous entries on the C08 scheduler model (open: DC19.1 failed import skips a cache entry, DC19.2 deadlocked entry fiber resumes at a stale ip, DC19.3 wake-up owed by an ended script is lost; repl loop order regenerated from the VM text); generated sessions run through Vm::repl vs the concatenated module, incl. functions with cache sites defined in one entry and called from later ones and fibers/channels that live across entries, plus a compile-log tie of module slots and cache ids read back from the encoded bytes",
         note="Trusted: Lean kernel + standard axioms, hand-written REPL model, vh_repl harness; the lengths of the cache vectors are not observable through a hook (ids in range are proved on the model and seen as the absence of the debug assertion); that grow keeps cached state is exercised, not modelled",
         technique="Lean 4 invariant proofs over REPL sessions + session/concatenation differential stream"),
     "C20": dict(
